@@ -109,7 +109,7 @@ def slab_arithmetic(ctx, rep, rule: str, classes: list[str]) -> None:
     relative to the block start and tile [start, end) as left | center | right."""
     import itertools
 
-    from ..guards import Interp, Unsupported
+    from ..guards import Interp, Unsupported, repo_pure_calls
 
     repo = ctx.repo
     for cq in classes:
@@ -126,7 +126,7 @@ def slab_arithmetic(ctx, rep, rule: str, classes: list[str]) -> None:
             for rs, s, ln in itertools.product(range(1, 7), range(0, 14), range(0, 20)):
                 e = s + ln
                 env = {"remaining_size": rs, "block_start_idx": s, "block_end_idx": e}
-                it = Interp(env)
+                it = Interp(env, call_hook=repo_pure_calls(repo, inner.module))  # a shared helper (`align_up(x, n)`) is followed into
                 for nm in need:
                     it.env[nm] = it.ev(defs[nm])
                 v = it.env
